@@ -4,6 +4,8 @@ import (
 	"fmt"
 	"go/constant"
 	"go/token"
+	"os"
+	"runtime"
 	"sort"
 	"strings"
 
@@ -305,6 +307,16 @@ func isNum(c constant.Value) bool { return c.Kind() == constant.Int || c.Kind() 
 // Run explores fn from (start, idx). pred is the block the path comes from
 // (used to select φ edges of start when idx==0; may be nil).
 func (e *Explorer) Run(fn *ssa.Function, start *ssa.BasicBlock, pred *ssa.BasicBlock, seed map[ssa.Value]AVal) []Outcome {
+	if os.Getenv("TV_PATHS") != "" {
+		defer func() {
+			fmt.Fprintf(os.Stderr, "explore %s: %d paths (depth %d visits %d)\n", Short(fn), e.Paths, e.MaxDepth, e.MaxVisits)
+			if e.Paths > 20000 {
+				buf := make([]byte, 4096)
+				n := runtime.Stack(buf, false)
+				fmt.Fprintf(os.Stderr, "%s\n", buf[:n])
+			}
+		}()
+	}
 	if e.MaxVisits == 0 {
 		e.MaxVisits = 2
 	}
@@ -618,6 +630,19 @@ func (e *Explorer) inline(callee *ssa.Function, site ssa.Instruction, c *ssa.Cal
 func (e *Explorer) inlineV(callee *ssa.Function, site ssa.Instruction, c *ssa.CallCommon, st *State, cont func(*State, []AVal, []ssa.Value), emit func(Outcome)) {
 	st2 := st.clone()
 	st2.depth++
+	// a new activation: what an earlier activation of the same function left behind (block visit counts,
+	// values of its instructions, contents of its locals) does not carry over
+	for _, b := range callee.Blocks {
+		delete(st2.visits, b)
+		for _, in := range b.Instrs {
+			if v, ok := in.(ssa.Value); ok {
+				delete(st2.env, v)
+				if a, ok := in.(*ssa.Alloc); ok {
+					delete(st2.cells, a)
+				}
+			}
+		}
+	}
 	args := c.Args
 	params := callee.Params
 	if c.IsInvoke() {
